@@ -88,9 +88,9 @@ def model (line : String) : String :=
     | some w =>
       let dp := mode = "d"
       if kind = "loop" then
-        showList ((controlLoop dp (fuelOf w) (w.ready.length + 2) w).map showEv)
+        showList ((controlLoop window target dp (fuelOf w) (w.ready.length + 2) w).map showEv)
       else if kind = "sess" then
-        let r := session dp (fuelOf w) w
+        let r := session window target dp (fuelOf w) w
         showSess r.2.1 ++ " " ++ showList (r.1.map showEv)
       else "bad-op"
     | none => "bad-op"
@@ -112,7 +112,7 @@ def monitor (op obs : String) : String :=
       match evsStr with
       | some es =>
         match (splitList es).mapM parseEv with
-        | some evs => if holds dp evs then "ok" else "FAIL retarget-not-permitted-or-wrong-headers"
+        | some evs => if holds window target dp evs then "ok" else "FAIL retarget-not-permitted-or-wrong-headers"
         | none => "FAIL unparsable-observation"
       | none => "FAIL unparsable-observation"
     | none => badOr obs
